@@ -1,6 +1,6 @@
 (* C06 - bridge, part A: facts about the GENERATED model of the code (build/C06/Iterators_gen.v,
    regenerated from kawin/solver/Iterators.py and Solver.py on every run) that do not involve the
-   RK4 iterator: the Euler iterator and the solver wrappers.  Also the definitions and tactics shared
+   RK4 iterator: the Euler iterator (the solver wrappers are in BridgeS.v).  Also the definitions and tactics shared
    by the other bridge files.  Compiled by the check only (logical path KawinRun), never by the
    static make. *)
 From Coq Require Import Reals QArith Qreals List Lra.
@@ -16,10 +16,6 @@ Definition Euler_gen (VS : vspace) (f : R -> VS -> VS) (getdt : R -> VS -> R) (t
   ExplicitEulerIterator_gen Rops VS (@vadd VS) (@smul VS) f getdt (@plain_update VS) t x.
 Definition RK4_gen (VS : vspace) (f : R -> VS -> VS) (getdt : R -> VS -> R) (t : R) (x : VS) : VS * R :=
   RK4Iterator_gen Rops VS (@vadd VS) (@smul VS) f getdt (@plain_update VS) t x.
-
-(* the clamp DESolver._getdXdt applies to the model's step proposal *)
-Definition clamp_dt (dtmin dtmax d : R) : R :=
-  let d1 := if Rltb dtmin d then d else dtmin in if Rltb d1 dtmax then d1 else dtmax.
 
 Ltac gen_unfold :=
   unfold Euler_gen, RK4_gen, ExplicitEulerIterator_gen, RK4Iterator_gen, plain_update, RK4_doc, Euler_doc;
@@ -44,35 +40,6 @@ Lemma euler_gen_affine_system (L : VS -> VS) (g0 g1 : VS) getdt t y :
   vtaylor y (firstn 1 (affine_derivs VS L g0 g1 t y)) (getdt t y).
 Proof. intros HA HS. rewrite euler_gen_is_doc. cbn [fst]. apply euler_doc_affine_system; assumption. Qed.
 
-(* ---- the solver wrappers (for models that do not correct derivatives: the in-place hook
-   correctdXdt is the default no-op, see harness/c06_translate.py) ------------------------------------------------------------------ *)
-Variable F : R -> VS -> VS.        (* the model's getdXdt *)
-Variable userdt : VS -> R.         (* the model's getDt *)
-Variables dtmin dtmax : R.
-
-(* f(t, X, True) returns the same derivative as f(t, X), plus the clamped step *)
-Lemma getdXdt_pair_consistent t x :
-  getdXdt_dt_gen Rops VS (@vadd VS) (@smul VS) F userdt dtmin dtmax t x =
-  (getdXdt_gen Rops VS (@vadd VS) (@smul VS) F userdt dtmin dtmax t x, clamp_dt dtmin dtmax (userdt (F t x))).
-Proof. reflexivity. Qed.
-
-(* the model is called with the time and state the iterator passes, unchanged *)
-Lemma getdXdt_passes_time t x :
-  getdXdt_gen Rops VS (@vadd VS) (@smul VS) F userdt dtmin dtmax t x = F t x.
-Proof. reflexivity. Qed.
-
-Lemma updateX_is_plain x k h :
-  updateX_gen Rops VS (@vadd VS) (@smul VS) F userdt dtmin dtmax x k h = plain_update x k h.
-Proof. reflexivity. Qed.
-
-Lemma solver_euler_is_rk t x :
-  let dt := clamp_dt dtmin dtmax (userdt (F t x)) in
-  solver_Euler_gen Rops VS (@vadd VS) (@smul VS) F userdt dtmin dtmax t x = (rk_step VS F euler1 t x dt, dt).
-Proof.
-  cbv zeta. rewrite <- euler_doc_is_rk.
-  unfold solver_Euler_gen, ExplicitEulerIterator_gen, getdXdt_gen, getdXdt_dt_gen, updateX_gen, Euler_doc, clamp_dt.
-  cbv zeta. cbn [T Rops ltb snd fst]. pair_eq.
-Qed.
 End BridgeA.
 
 (* ---- scalar families for the generated Euler iterator --------------------------------------- *)
